@@ -16,6 +16,7 @@ import (
 	"strconv"
 	"strings"
 	"sync"
+	"syscall"
 	"time"
 )
 
@@ -318,6 +319,11 @@ func loadKnown(verifDir, prop string) map[string]string {
 //	<bin> -replay <file>            re-run one recorded case without the explorer
 //	<bin> -worker                   (internal)
 func Main(cfg *Config) {
+	// ./check holds the lock of this property on an inherited descriptor: it stays with the coordinator process
+	// only, so that a worker or a pint process outliving the coordinator cannot keep the next run waiting.
+	if fd, err := strconv.Atoi(os.Getenv("VERIF_LOCK_FD")); err == nil && fd > 2 {
+		syscall.CloseOnExec(fd)
+	}
 	args := os.Args[1:]
 	if len(args) >= 1 && args[0] == "-worker" {
 		runWorker(cfg)
